@@ -100,9 +100,86 @@ func (x *Exec) RegistryRun(steps int) {
 		})
 		em(r)
 	}
+	// 0. long-lived typed handles (mappers, a filter, an exchange) created while the registry is almost empty;
+	// they must keep working however many types are registered afterwards
+	early := x.Cfg.Path != "unsafe"
+	var em1, em2 TypedMap
+	var ef1 TypedFilter
+	var ex1 TypedExchange
+	idA, idB := 0, 0
+	if early {
+		for k, c := range []string{"A", "B"} {
+			r := LogReg{Op: "RegType", T: 9001 + k, Locked: w.IsLocked(), Id: -1}
+			r.Panic, r.Msg = try(func() { r.Id = idInt(ecs.TypeID(w, compTypes[c])) })
+			em(r)
+			if k == 0 {
+				idA = r.Id
+			} else {
+				idB = r.Id
+			}
+		}
+		em1, em2, ef1, ex1 = mapCtors["A"](w), mapCtors["A,B"](w), filterCtors["A"](w), exCtors["B"](w)
+	}
+	useEarly := func() {
+		if !early {
+			return
+		}
+		r := LogReg{Op: "Use", Ids: []int{idA, idB}, Locked: w.IsLocked(), Msg: "early typed handles"}
+		r.Panic, r.Msg = try(func() {
+			e1 := em1.NewEntity([]int64{41}, nil)
+			e2 := em2.NewEntity([]int64{42, 43}, nil)
+			ok := x.get("A", em1.Get(e1)[0]) == 41 && x.get("A", em1.Get(e2)[0]) == 42
+			p2 := em2.Get(e2)
+			ok = ok && x.get("A", p2[0]) == 42 && x.get("B", p2[1]) == 43 && !em2.HasAll(e1) && em2.HasAll(e2)
+			ex1.Add(e1, []int64{44}, nil)
+			p1 := em2.Get(e1)
+			ok = ok && em2.HasAll(e1) && x.get("A", p1[0]) == 41 && x.get("B", p1[1]) == 44
+			n := 0
+			q := ef1.Query()
+			for q.Next() {
+				if h := q.Entity(); h == e1 || h == e2 {
+					n++
+					want := int64(41)
+					if h == e2 {
+						want = 42
+					}
+					ok = ok && x.get("A", q.Get()[0]) == want
+				}
+			}
+			ok = ok && n == 2
+			// a table that did not exist when the handles were created: A together with the newest type
+			if all := ecs.ComponentIDs(w); len(all) > 2 && idInt(all[len(all)-1]) != idA {
+				e3 := w.Unsafe().NewEntity(all[idA], all[len(all)-1])
+				ok = ok && em1.HasAll(e3)
+				em1.Set(e3, []int64{45})
+				ok = ok && x.get("A", em1.Get(e3)[0]) == 45
+				n3 := 0
+				q3 := ef1.Query()
+				for q3.Next() {
+					if q3.Entity() == e3 {
+						n3++
+						ok = ok && x.get("A", q3.Get()[0]) == 45
+					}
+				}
+				ok = ok && n3 == 1
+				ex1.Add(e3, []int64{46}, nil)
+				ok = ok && x.get("B", em2.Get(e3)[1]) == 46
+				w.RemoveEntity(e3)
+			}
+			em1.Remove(e2)
+			ok = ok && !em1.HasAll(e2) && w.Alive(e2)
+			w.RemoveEntity(e1)
+			w.RemoveEntity(e2)
+			r.Ok = ok && !w.Alive(e1) && !w.Alive(e2)
+		})
+		em(r)
+	}
 	// 1. fill the registry, with repeats and a few attempts on a locked world
 	order := x.rng.Perm(limit)
 	for i, t := range order {
+		if i%32 == 3 || i == limit-1 {
+			useEarly()
+		}
 		if i%17 == 5 {
 			q := ecs.NewFilter0(w).Query()
 			lockQ = &q
